@@ -261,6 +261,37 @@ class Str(str):
     __slots__ = ()
 
 
+def _shallow_copy_probe(api, original, d):
+    """copy.copy(original); the original grows; then both are asked (monitored: each must answer from its own records,
+    in every query family and without raising in the default mode), about the new strings and about old ones."""
+    import copy
+
+    twin = copy.copy(original)
+    try:
+        original.add_prefix(ORIG_PREFIX, ORIG_URI)
+    except ValueError:
+        return
+    old = [r for r in spec.snapshot(twin) if r.prefix != ORIG_PREFIX][:2]
+    curies = [ORIG_PREFIX + d + "1"] + [p + d + "1" for r in old for p in spec.all_p(r)[:2]]
+    uris = [ORIG_URI + "1"] + [u + "1" for r in old for u in spec.all_u(r)[:2]]
+    S = probe.S
+    S.in_monitor -= 1  # the questions are monitored calls (the caller holds monitor mode)
+    try:
+        for conv in (twin, original):
+            for q in curies + uris:
+                for name in ("compress", "expand", "standardize_curie", "standardize_uri", "compress_or_standardize", "expand_or_standardize"):
+                    probe.outcome_of(getattr(conv, name), q)
+                    probe.outcome_of(getattr(conv, name), q, passthrough=True)
+                probe.outcome_of(conv.parse_uri, q, return_none=True)
+                probe.outcome_of(conv.expand_all, q)
+                probe.outcome_of(conv.is_uri, q)
+                probe.outcome_of(conv.is_curie, q)
+            probe.outcome_of(conv.standardize_prefix, ORIG_PREFIX)
+            probe.outcome_of(conv.expand_pair, ORIG_PREFIX, "1")
+    finally:
+        S.in_monitor += 1
+
+
 def _circumstance(api, c, delimiter, rng, how):
     """One converter in four is not used as built: it is a deep copy, went through pickle, or is an instance of a user
     subclass (overriding nothing) rebuilt from deep copies of its records.  All of these are converters like any other."""
@@ -275,8 +306,12 @@ def _circumstance(api, c, delimiter, rng, how):
             if r < 0.06:
                 c2, tag = copy.deepcopy(c), "deep-copied"
             elif r < 0.09:
-                # copy.copy: whatever the two share, both must stay converters that answer from their own records
-                c2, tag = copy.copy(c), "shallow-copied"
+                # copy.copy shares whatever it shares with the original, so a shallow copy whose original grows does
+                # not keep the content the driver asked for: the experiment is made on a sacrificial pair (a deep copy
+                # of c and its shallow copy) and c itself is used as built
+                _shallow_copy_probe(api, copy.deepcopy(c), delimiter)
+                probe.S.counters["wl:circumstance:shallow-copy-probed"] += 1
+                return c, how
             elif r < 0.18:
                 c2, tag = pickle.loads(pickle.dumps(c)), "pickled"
             else:
